@@ -5,20 +5,20 @@ Require Import Verif.Lib.Wire Verif.Gen.Facts_C03 Verif.Model.C03 Verif.Proofs.C
                Verif.Proofs.C14.
 
 (* the body of the with-block of invoke_exception_view *)
-Definition iev_body (P : params) (W : world) (ri : rinfo) (site e : N) (a : amap)
+Definition iev_body (P : params) (W : world) (ri : rinfo) (site : N) (sec : bool) (e : N) (a : amap)
     : (option outcome * list event) * amap :=
   let a := set_all (p_set_in P) e a in
-  match call_view (w_reg W) exc_classifier_id (exc_request P W ri e) with
+  match call_view_sec P (w_reg W) sec exc_classifier_id (exc_request P W ri e) with
   | Ran tag =>
-      let '(o, evs, a2) := run_body P W (ri_deny ri) site tag e a in
+      let '(o, evs, a2) := run_body P W sec (ri_deny ri) site tag e a in
       ((Some o, evs), a2)
   | NotFoundPme => ((Some (Raise (fresh_pme site)), []), a)
   | NotFoundNone => ((None, []), a)
   end.
 
-Lemma iev_unfold P W ri site rr e st :
-  iev P W ri site rr e st =
-  let '((res, evs), attrs') := hide_attrs (p_hidden P) (iev_body P W ri site e) (st_attrs st) in
+Lemma iev_unfold P W ri site rr sec e st :
+  iev P W ri site rr sec e st =
+  let '((res, evs), attrs') := hide_attrs (p_hidden P) (iev_body P W ri site sec e) (st_attrs st) in
   let log := st_log st ++ evs in
   match res with
   | Some (Raise e2) => (Raise (if rr && isa W (p_iev_catches P) e2 then e else e2), mkSt attrs' log)
@@ -38,19 +38,19 @@ Qed.
 
 (* invoke_exception_view when the lookup ends in Not Found (nothing registered, or every predicate
    mismatched): no body ran, every hidden attribute is as before, an exception is raised *)
-Lemma iev_not_found P W ri site rr e st :
+Lemma iev_not_found P W ri site rr sec e st :
   NoDup (p_hidden P) ->
-  not_found (call_view (w_reg W) exc_classifier_id (exc_request P W ri e)) ->
-  let r := iev P W ri site rr e st in
+  not_found (call_view_sec P (w_reg W) sec exc_classifier_id (exc_request P W ri e)) ->
+  let r := iev P W ri site rr sec e st in
   st_log (snd r) = st_log st
   /\ (forall k, In k (p_hidden P) -> aget k (st_attrs (snd r)) = aget k (st_attrs st))
   /\ (fst r = Raise (if rr then e else fresh_of_class (p_none_raises P) site)
       \/ fst r = Raise (if rr && isa W (p_iev_catches P) (fresh_pme site) then e else fresh_pme site)).
 Proof.
   intros Hnd Hnf r. subst r. rewrite iev_unfold.
-  pose proof (hide_attrs_restores (p_hidden P) (iev_body P W ri site e) (st_attrs st)) as Hres.
-  pose proof (hide_attrs_fst (p_hidden P) (iev_body P W ri site e) (st_attrs st)) as Hfst.
-  destruct (hide_attrs (p_hidden P) (iev_body P W ri site e) (st_attrs st)) as [[res evs] attrs'].
+  pose proof (hide_attrs_restores (p_hidden P) (iev_body P W ri site sec e) (st_attrs st)) as Hres.
+  pose proof (hide_attrs_fst (p_hidden P) (iev_body P W ri site sec e) (st_attrs st)) as Hfst.
+  destruct (hide_attrs (p_hidden P) (iev_body P W ri site sec e) (st_attrs st)) as [[res evs] attrs'].
   simpl in Hres, Hfst. unfold iev_body in Hfst.
   destruct Hnf as [Hnf|Hnf]; rewrite Hnf in Hfst; simpl in Hfst; inversion Hfst; subst; simpl;
     rewrite app_nil_r; (split; [reflexivity|]); (split; [intros k Hk; apply Hres; assumption|]).
@@ -76,8 +76,8 @@ Theorem no_view_propagates P W ri e st :
 Proof.
   intros Hnd Hrr [Hpme Hnf] Hcall r. subst r. unfold excview_tween.
   destruct (isa W (p_tween_catches P) e); [|simpl; auto].
-  pose proof (iev_not_found P W ri site_tween false e st Hnd Hcall) as [Hlog [Hattrs Hout]].
-  destruct (iev P W ri site_tween false e st) as [o st']. simpl in *.
+  pose proof (iev_not_found P W ri site_tween false true e st Hnd Hcall) as [Hlog [Hattrs Hout]].
+  destruct (iev P W ri site_tween false true e st) as [o st']. simpl in *.
   destruct Hout as [-> | ->]; simpl.
   - rewrite Hnf, Hrr. simpl. auto.
   - rewrite Hpme, Hrr. simpl. auto.
@@ -92,6 +92,25 @@ Theorem response_passes P W ri r st : excview_tween P W ri (Resp r) st = (Resp r
 Proof. reflexivity. Qed.
 
 (* ------------------------------------------------------------------ *)
+(* secure=True, or a permissive call that checks predicates: the lookup is C03's *)
+
+Lemma call_loop_p_eq P rq l pme :
+  p_perm_checks P = true -> call_loop_p P rq l pme = call_loop rq l pme.
+Proof.
+  intros H. revert pme. induction l as [|c r IH]; intros pme; simpl; [reflexivity|].
+  assert (E : call_component_p P rq c = call_component rq c).
+  { destruct c; simpl; [|reflexivity]. rewrite H. simpl. rewrite andb_false_r. reflexivity. }
+  rewrite E. destruct (call_component rq c); [reflexivity|apply IH].
+Qed.
+
+Lemma call_view_sec_eq P R sec cls rq :
+  sec = true \/ p_perm_checks P = true -> call_view_sec P R sec cls rq = call_view R cls rq.
+Proof.
+  intros [->|H]; [reflexivity|]. unfold call_view_sec, call_view. destruct sec; [reflexivity|].
+  apply call_loop_p_eq. exact H.
+Qed.
+
+(* ------------------------------------------------------------------ *)
 (* a view applies *)
 
 Lemma names_distinct :
@@ -101,15 +120,19 @@ Proof. repeat split; intro H; discriminate H. Qed.
 Lemma snap_eq m : snap m = [aget hn_response m; aget hn_exc_info m; aget hn_exception m].
 Proof. reflexivity. Qed.
 
+Section B.
+Variable b : bool.
+Notation SP := (spec_params_b b).
+
 (* the attribute map the exception view sees (the property's names) *)
 Lemma seen_attrs e m :
-  snap (set_all (p_set_in spec_params) e (fst (hide_pop (p_hidden spec_params) m []))) = seen_snapshot e.
+  snap (set_all (p_set_in SP) e (fst (hide_pop (p_hidden SP) m []))) = seen_snapshot e.
 Proof.
   destruct names_distinct as [H1 [H2 H3]].
-  assert (Hr : aget hn_response (fst (hide_pop (p_hidden spec_params) m [])) = None)
+  assert (Hr : aget hn_response (fst (hide_pop (p_hidden SP) m [])) = None)
     by (apply hide_pop_attrs_in; simpl; auto).
-  revert Hr. generalize (fst (hide_pop (p_hidden spec_params) m [])). intros m1 Hr.
-  rewrite snap_eq. unfold seen_snapshot. change (p_set_in spec_params) with [hn_exception; hn_exc_info].
+  revert Hr. generalize (fst (hide_pop (p_hidden SP) m [])). intros m1 Hr.
+  rewrite snap_eq. unfold seen_snapshot. change (p_set_in SP) with [hn_exception; hn_exc_info].
   unfold set_all. simpl fold_left.
   rewrite aget_aset_same.
   rewrite (aget_aset_other hn_exc_info hn_response) by congruence.
@@ -120,11 +143,11 @@ Qed.
 
 (* after a response was produced: response restored, exc_info / exception = the rendered exception *)
 Lemma after_attrs e attrs' m :
-  (forall k, In k (p_hidden spec_params) -> aget k attrs' = aget k m) ->
-  snap (set_all (p_set_after spec_params) e attrs') = after_snapshot (snap m) e.
+  (forall k, In k (p_hidden SP) -> aget k attrs' = aget k m) ->
+  snap (set_all (p_set_after SP) e attrs') = after_snapshot (snap m) e.
 Proof.
   intros H. destruct names_distinct as [H1 [H2 H3]].
-  rewrite !snap_eq. unfold after_snapshot. change (p_set_after spec_params) with [hn_exception; hn_exc_info].
+  rewrite !snap_eq. unfold after_snapshot. change (p_set_after SP) with [hn_exception; hn_exc_info].
   unfold set_all. simpl fold_left.
   rewrite aget_aset_same.
   rewrite (aget_aset_other hn_exc_info hn_response) by congruence.
@@ -134,13 +157,13 @@ Proof.
 Qed.
 
 Lemma snap_restored attrs' m :
-  (forall k, In k (p_hidden spec_params) -> aget k attrs' = aget k m) -> snap attrs' = snap m.
+  (forall k, In k (p_hidden SP) -> aget k attrs' = aget k m) -> snap attrs' = snap m.
 Proof. intros H. rewrite !snap_eq. rewrite !H by (simpl; auto). reflexivity. Qed.
 
-Lemma spec_hidden_nodup : NoDup (p_hidden spec_params).
+Lemma spec_hidden_nodup : NoDup (p_hidden SP).
 Proof. repeat constructor; simpl; intuition discriminate. Qed.
 
-(* what a rendering must look like when the lookup selects the view [t]: the event, the result, the attributes *)
+(* what a rendering must look like when the lookup selects the view [t] and its body runs *)
 Definition rendered (W : world) (rr : option bool) (t e : N) (before : snapshot) (o : outcome) (after : snapshot) : Prop :=
   match b_act (body_of (w_bodies W) t) with
   | ARet => o = Resp (RView t) /\ after = after_snapshot before e
@@ -156,49 +179,51 @@ Definition rendered (W : world) (rr : option bool) (t e : N) (before : snapshot)
       end
   end.
 
-Definition body_outcome (P : params) (W : world) (site tag ctx : N) : outcome :=
+Definition body_outcome (P : params) (W : world) (site tag ctx : N) (a : amap) : outcome :=
   match b_act (body_of (w_bodies W) tag) with
   | ARet => Resp (RView tag)
-  | ARetCtx => if p_default_view_ctx P && negb (N.eqb (status_of W ctx) 0) then Resp (RExc ctx) else Raise (fresh_ve site)
+  | ARetCtx => if p_default_view_ctx P && negb (N.eqb (status_of W (ctx_returned W ctx a)) 0)
+               then Resp (RExc (ctx_returned W ctx a)) else Raise (fresh_ve site)
   | ARaise e => Raise e
   end.
 
-Lemma run_body_eq P W deny site tag ctx a :
-  b_perm (body_of (w_bodies W) tag) && deny = false ->
-  run_body P W deny site tag ctx a =
-  (body_outcome P W site tag ctx, [EBody tag ctx (snap a)],
+Lemma run_body_eq P W sec deny site tag ctx a :
+  sec && b_perm (body_of (w_bodies W) tag) && deny = false ->
+  run_body P W sec deny site tag ctx a =
+  (body_outcome P W site tag ctx a, [EBody tag ctx (snap a)],
    if b_touch (body_of (w_bodies W) tag) then aset hn_response (resp_obj tag) a else a).
 Proof.
   intros H. unfold run_body, body_outcome. rewrite H.
   destruct (b_act (body_of (w_bodies W) tag)); try reflexivity.
-  destruct (p_default_view_ctx P && negb (N.eqb (status_of W ctx) 0)); reflexivity.
+  destruct (p_default_view_ctx P && negb (N.eqb (status_of W (ctx_returned W ctx a)) 0)); reflexivity.
 Qed.
 
 (* excview_sees_exception (direct call): the selected view runs once, with the exception as context, as
    request.exception and in request.exc_info, and request.response hidden; a response leaves exception and
    exc_info set to the rendered exception and restores request.response; a failing view restores all three *)
-Lemma iev_view_runs W ri site rr e st t :
-  call_view (w_reg W) exc_classifier_id (exc_request spec_params W ri e) = Ran t ->
-  b_perm (body_of (w_bodies W) t) && ri_deny ri = false ->
-  let r := iev spec_params W ri site rr e st in
+Lemma iev_view_runs W ri site rr sec e st t :
+  isa W cn_Exception e = true ->
+  call_view_sec SP (w_reg W) sec exc_classifier_id (exc_request SP W ri e) = Ran t ->
+  sec && b_perm (body_of (w_bodies W) t) && ri_deny ri = false ->
+  let r := iev SP W ri site rr sec e st in
   st_log (snd r) = st_log st ++ [EBody t e (seen_snapshot e)]
   /\ rendered W (Some rr) t e (snap (st_attrs st)) (fst r) (snap (st_attrs (snd r))).
 Proof.
-  intros Hcall Hperm r. subst r. rewrite iev_unfold.
-  pose proof (hide_attrs_restores (p_hidden spec_params) (iev_body spec_params W ri site e) (st_attrs st)) as Hres.
-  pose proof (hide_attrs_fst (p_hidden spec_params) (iev_body spec_params W ri site e) (st_attrs st)) as Hfst.
-  assert (Hb : fst (iev_body spec_params W ri site e (fst (hide_pop (p_hidden spec_params) (st_attrs st) [])))
-               = (Some (body_outcome spec_params W site t e), [EBody t e (seen_snapshot e)])).
-  { unfold iev_body. rewrite Hcall. rewrite run_body_eq by exact Hperm. rewrite seen_attrs. reflexivity. }
-  rewrite Hb in Hfst. clear Hb.
-  destruct (hide_attrs (p_hidden spec_params) (iev_body spec_params W ri site e) (st_attrs st)) as [[res evs] attrs'].
+  intros Hisa Hcall Hperm r. subst r. rewrite iev_unfold.
+  pose proof (hide_attrs_restores (p_hidden SP) (iev_body SP W ri site sec e) (st_attrs st)) as Hres.
+  pose proof (hide_attrs_fst (p_hidden SP) (iev_body SP W ri site sec e) (st_attrs st)) as Hfst.
+  assert (Hb : exists a0, fst (iev_body SP W ri site sec e (fst (hide_pop (p_hidden SP) (st_attrs st) [])))
+               = (Some (body_outcome SP W site t e a0), [EBody t e (seen_snapshot e)])).
+  { unfold iev_body. rewrite Hcall. rewrite run_body_eq by exact Hperm. rewrite seen_attrs. eexists. reflexivity. }
+  destruct Hb as [a0 Hb]. rewrite Hb in Hfst. clear Hb.
+  destruct (hide_attrs (p_hidden SP) (iev_body SP W ri site sec e) (st_attrs st)) as [[res evs] attrs'].
   simpl fst in Hfst. simpl snd in Hres. inversion Hfst; subst res evs. clear Hfst.
-  assert (Hres' : forall k, In k (p_hidden spec_params) -> aget k attrs' = aget k (st_attrs st))
+  assert (Hres' : forall k, In k (p_hidden SP) -> aget k attrs' = aget k (st_attrs st))
     by (intros k Hk; apply Hres; [exact spec_hidden_nodup|exact Hk]).
-  clear Hres. unfold rendered, body_outcome.
+  clear Hres. unfold rendered, body_outcome, ctx_returned. rewrite Hisa.
   destruct (b_act (body_of (w_bodies W) t)) as [| |v] eqn:Hact.
   - simpl. split; [reflexivity|]. split; [reflexivity|]. apply after_attrs. exact Hres'.
-  - change (p_default_view_ctx spec_params) with true. simpl andb.
+  - change (p_default_view_ctx SP) with true. simpl andb.
     destruct (N.eqb (status_of W e) 0) eqn:Hst; simpl.
     + split; [reflexivity|exact I].
     + split; [reflexivity|]. split; [reflexivity|]. apply after_attrs. exact Hres'.
@@ -206,22 +231,45 @@ Proof.
     destruct rr; simpl; reflexivity.
 Qed.
 
+(* the policy refuses the secured exception view: no body, attributes restored, the refusal propagates *)
+Lemma iev_refused W ri site rr sec e st t :
+  N.eqb site site_main = false ->
+  call_view_sec SP (w_reg W) sec exc_classifier_id (exc_request SP W ri e) = Ran t ->
+  sec && b_perm (body_of (w_bodies W) t) && ri_deny ri = true ->
+  let r := iev SP W ri site rr sec e st in
+  st_log (snd r) = st_log st
+  /\ snap (st_attrs (snd r)) = snap (st_attrs st)
+  /\ fst r = Raise (if rr && isa W cn_Exception (fresh_forb site) then e else fresh_forb site).
+Proof.
+  intros Hsite Hcall Hperm r. subst r. rewrite iev_unfold.
+  pose proof (hide_attrs_restores (p_hidden SP) (iev_body SP W ri site sec e) (st_attrs st)) as Hres.
+  pose proof (hide_attrs_fst (p_hidden SP) (iev_body SP W ri site sec e) (st_attrs st)) as Hfst.
+  assert (Hb : fst (iev_body SP W ri site sec e (fst (hide_pop (p_hidden SP) (st_attrs st) [])))
+               = (Some (Raise (fresh_forb site)), [])).
+  { unfold iev_body. rewrite Hcall. unfold run_body. rewrite Hperm, Hsite. reflexivity. }
+  rewrite Hb in Hfst. clear Hb.
+  destruct (hide_attrs (p_hidden SP) (iev_body SP W ri site sec e) (st_attrs st)) as [[res evs] attrs'].
+  simpl fst in Hfst. simpl snd in Hres. inversion Hfst; subst res evs. clear Hfst.
+  simpl. rewrite app_nil_r. split; [reflexivity|]. split; [|reflexivity].
+  apply snap_restored. intros k Hk. apply Hres; [exact spec_hidden_nodup|exact Hk].
+Qed.
+
 (* the same through the excview tween *)
 Theorem excview_view_runs W ri e st t :
   isa W cn_Exception e = true ->
-  call_view (w_reg W) exc_classifier_id (exc_request spec_params W ri e) = Ran t ->
+  call_view (w_reg W) exc_classifier_id (exc_request SP W ri e) = Ran t ->
   b_perm (body_of (w_bodies W) t) && ri_deny ri = false ->
-  let r := excview_tween spec_params W ri (Raise e) st in
+  let r := excview_tween SP W ri (Raise e) st in
   st_log (snd r) = st_log st ++ [EBody t e (seen_snapshot e)]
   /\ rendered W None t e (snap (st_attrs st)) (fst r) (snap (st_attrs (snd r))).
 Proof.
-  intros Hisa Hcall Hperm r. subst r. unfold excview_tween. simpl p_tween_catches. rewrite Hisa.
-  pose proof (iev_view_runs W ri site_tween false e st t Hcall Hperm) as [Hlog Hr].
-  destruct (iev spec_params W ri site_tween false e st) as [o st']. simpl in Hlog, Hr.
+  intros Hisa Hcall Hperm r. subst r. unfold excview_tween. change (p_tween_catches SP) with cn_Exception. rewrite Hisa.
+  pose proof (iev_view_runs W ri site_tween false true e st t Hisa Hcall Hperm) as [Hlog Hr].
+  destruct (iev SP W ri site_tween false true e st) as [o st']. simpl in Hlog, Hr.
   unfold rendered in *. destruct o as [r|e2].
   - simpl. split; [exact Hlog|]. destruct (b_act (body_of (w_bodies W) t)); [exact Hr|exact Hr|].
     destruct Hr as [_ Hr]. discriminate Hr.
-  - simpl p_handler_catches. simpl p_handler_reraises.
+  - change (p_handler_catches SP) with cn_HTTPNotFound. change (p_handler_reraises SP) with true.
     destruct (b_act (body_of (w_bodies W) t)) as [| |v].
     + destruct Hr as [Hr _]. discriminate Hr.
     + destruct (N.eqb (status_of W e) 0); [destruct (isa W cn_HTTPNotFound e2); simpl; auto|].
@@ -231,6 +279,25 @@ Proof.
       * intros Hc. discriminate Hc.
       * intros _. reflexivity.
 Qed.
+
+(* a refusal while rendering in the excview tween: the framework's HTTPForbidden propagates (it does not enter
+   403 handling), nothing ran, the attributes are as before *)
+Theorem excview_refused W ri e st t :
+  isa W cn_Exception e = true ->
+  isa W cn_HTTPNotFound (fresh_forb site_tween) = false ->
+  call_view (w_reg W) exc_classifier_id (exc_request SP W ri e) = Ran t ->
+  b_perm (body_of (w_bodies W) t) && ri_deny ri = true ->
+  let r := excview_tween SP W ri (Raise e) st in
+  fst r = Raise (fresh_forb site_tween) /\ st_log (snd r) = st_log st
+  /\ snap (st_attrs (snd r)) = snap (st_attrs st).
+Proof.
+  intros Hisa Hnf Hcall Hperm r. subst r. unfold excview_tween. change (p_tween_catches SP) with cn_Exception. rewrite Hisa.
+  pose proof (iev_refused W ri site_tween false true e st t eq_refl Hcall Hperm) as [Hl [Ha Ho]].
+  destruct (iev SP W ri site_tween false true e st) as [o st']. simpl in Hl, Ha, Ho. subst o.
+  simpl. change (p_handler_catches SP) with cn_HTTPNotFound. rewrite Hnf. simpl. auto.
+Qed.
+
+End B.
 
 (* ------------------------------------------------------------------ *)
 (* which view: C03's lookup theorem with the exception classifier *)
@@ -276,27 +343,26 @@ Qed.
 (* http_exception_is_response: when the only registrations the declarative order allows for an HTTP exception
    (an object that is a response) are default exception-response views, the exception object itself is the
    response, and it is request.exception afterwards *)
-Theorem http_exception_is_response ao regs W ri e st :
+Theorem http_exception_is_response b ao regs W ri e st :
   w_reg W = register_all ao regs ->
-  Forall reg_wf regs -> NoDup (map key regs) -> no_accept regs -> order_respects regs ->
-  NoDup (q_req_sro (exc_request spec_params W ri e)) -> NoDup (x_sro (find_exc (w_excs W) e)) ->
+  spec_ok exc_classifier_id regs (exc_request (spec_params_b b) W ri e)
+          (call_view (register_all ao regs) exc_classifier_id (exc_request (spec_params_b b) W ri e)) = true ->
   isa W cn_Exception e = true -> status_of W e <> 0%N ->
-  spec_winners exc_classifier_id regs (exc_request spec_params W ri e) <> [] ->
-  (forall w, In w (spec_winners exc_classifier_id regs (exc_request spec_params W ri e)) ->
+  spec_winners exc_classifier_id regs (exc_request (spec_params_b b) W ri e) <> [] ->
+  (forall w, In w (spec_winners exc_classifier_id regs (exc_request (spec_params_b b) W ri e)) ->
              body_of (w_bodies W) (r_tag w) = mkBody false ARetCtx false) ->
-  let r := excview_tween spec_params W ri (Raise e) st in
+  let r := excview_tween (spec_params_b b) W ri (Raise e) st in
   fst r = Resp (RExc e)
   /\ aget hn_exception (st_attrs (snd r)) = Some e /\ aget hn_exc_info (st_attrs (snd r)) = Some e
   /\ aget hn_response (st_attrs (snd r)) = aget hn_response (st_attrs st).
 Proof.
-  intros HR Hwf Hk Hna Hor Hrs Hcs Hisa Hst Hne Hdef r. subst r.
-  pose proof (excview_nearest_class ao regs spec_params W ri e Hwf Hk Hna Hor Hrs Hcs) as Hok.
+  intros HR Hok Hisa Hst Hne Hdef r. subst r.
   rewrite <- HR in Hok.
   destruct (spec_ok_found _ _ _ _ Hok Hne) as [t Ht]. rewrite Ht in Hok.
   destruct (spec_ok_ran _ _ _ _ Hok) as [w [Hw Htag]].
   pose proof (Hdef w Hw) as Hb. rewrite Htag in Hb.
   assert (Hperm : b_perm (body_of (w_bodies W) t) && ri_deny ri = false) by (rewrite Hb; reflexivity).
-  pose proof (excview_view_runs W ri e st t Hisa Ht Hperm) as [_ Hr].
+  pose proof (excview_view_runs b W ri e st t Hisa Ht Hperm) as [_ Hr].
   unfold rendered in Hr. rewrite Hb in Hr. simpl b_act in Hr.
   destruct (N.eqb (status_of W e) 0) eqn:E; [apply N.eqb_eq in E; contradiction|].
   destruct Hr as [Ho Ha]. split; [exact Ho|].
